@@ -166,7 +166,13 @@ def streams_for(pid, tier, rng):
     elif pid == "C03":
         S.append(ops_stream("every op x pools", rng, pools, list(OPS), cap, modes=("off", "on")))
         n = 20000 * scale
-        S.append(Stream("pictures", picture_lines(rng, n, 14), ("off", "on")))
+        S.append(Stream("pictures", picture_lines(rng, n, 14) + picture_lines(rng, n // 4, 48) +
+                        ["F.try_new " + hx(tok * k) for tok in ("-", "DD", "YYYY ", "MONTH:", " ,") for k in range(30, 46)],
+                        ("off", "on")))
+        S.append(Stream("interval day widths", ["F.format DT %d %s -1" % (sgn * (d * USECS_PER_DAY + t), hx(pic))
+                        for d in list(range(0, 41)) + [99, 100, 101, 999, 1000, 99999999, 100000000]
+                        for t in (0, 3723000004) for sgn in (1, -1) for pic in ("DD HH24:MI:SS", "DD", "HH24 DD")
+                        if d * USECS_PER_DAY + t <= DT_MAX], ("off", "on")))
         S.append(Stream("format", format_lines(rng, pools, n, 10, applicable_only=False), ("off", "on")))
         S.append(Stream("parse (generated)", parse_lines(rng, pools, n), ("off", "on")))
         S.append(Stream("parse (byte-random)", wild_parse_lines(rng, pools, n), ("off", "on")))
@@ -199,6 +205,14 @@ def streams_for(pid, tier, rng):
         S.append(Stream("all microseconds x FF", lines, exhaustive=thorough))
         S.append(Stream("composite pictures", format_lines(rng, pools, 30000 * scale, 36, applicable_only=True)))
         S.append(Stream("inapplicable tokens", format_lines(rng, pools, 5000 * scale, 4, applicable_only=False)))
+        S.append(Stream("interval day widths", ["F.format DT %d %s -1" % (sgn * (d * USECS_PER_DAY + t), hx(pic))
+                        for d in list(range(0, 41)) + [99, 100, 101, 999, 1000, 99999999, 100000000]
+                        for t in (0, 3723000004) for sgn in (1, -1) for pic in ("DD HH24:MI:SS.FF", "DD", "HH24 DD")
+                        if d * USECS_PER_DAY + t <= DT_MAX]))
+        S.append(Stream("year-month interval years", ["F.format YM %d %s -1" % (sgn * (y * 12 + mo), hx(pic))
+                        for y in [0, 1, 9, 10, 99, 100, 999, 1000, 9999, 10000, 99999, 177999999, 178000000]
+                        for mo in (0, 11) for sgn in (1, -1) for pic in ("YYYY-MM", "YY MM", "Y", "MM YYY")
+                        if y * 12 + mo <= YM_MAX]))
     elif pid == "C05":
         lines = []
         ystep = 1 if thorough else 13
@@ -246,6 +260,14 @@ def streams_for(pid, tier, rng):
             lines.append("@range %d %d %d %d TS.extract %%" % (TS_MIN + t, TS_MAX, USECS_PER_DAY, BLK))
             lines.append("@range %d %d %d %d TS.acc %%" % (TS_MIN + t, TS_MAX, USECS_PER_DAY * (1 if thorough else 5), BLK))
         S.append(Stream("all dates x critical times: extract/acc", lines, exhaustive=True))
+        dense = []
+        for base in [0, -USECS_PER_DAY, days(1, 1, 1) * USECS_PER_DAY, days(9999, 12, 31) * USECS_PER_DAY, days(1969, 7, 20) * USECS_PER_DAY + 72000000000]:
+            for sec in [1, 30, 59]:
+                dense.append("@range %d %d 1 %d TS.acc %%" % (base + sec * 1000000, base + sec * 1000000 + 999999, BLK))
+        for _ in range(4000 * scale):
+            dense.append("TS.acc %d" % rng.range(TS_MIN, TS_MAX))
+            dense.append("OD.acc %d" % (rng.range(TS_MIN, TS_MAX) // 1000000 * 1000000))
+        S.append(Stream("timestamp accessors: every microsecond of sampled seconds + random", dense))
         lines = []
         for us in [0, 1, 999999]:
             lines.append("@range %d %d 1000000 %d T.extract %%" % (us, USECS_PER_DAY - 1, BLK))
@@ -419,7 +441,7 @@ def streams_for(pid, tier, rng):
         S.append(ops_stream("mixed comparisons and shared ops", rng, pools,
                             ["D.cmp_TS", "D.cmp_OD", "TS.cmp_D", "TS.cmp_OD", "OD.cmp_TS", "OD.cmp_D", "D.to_TS", "OD.from_TS",
                              "OD.to_TS", "D.last_day", "TS.last_day", "OD.last_day", "D.add_ym", "TS.add_ym", "OD.add_ym",
-                             "D.add_dt", "TS.add_dt", "OD.add_dt", "D.sub_ts", "TS.sub_ts", "OD.sub_ts", "TS.sub_date",
+                             "D.add_dt", "TS.add_dt", "OD.add_dt", "D.sub_ts", "TS.sub_ts", "OD.sub_ts", "OD.sub_date", "TS.sub_date",
                              "TS.oracle_sub_date"], cap * 2))
     elif pid == "C18":
         lines = []
